@@ -33,7 +33,19 @@ def main(argv=None):
                 return 2
             raise
         run = Run(pid, a.tier, seed, only_key=only)
-        mod.check(run)
+        try:
+            mod.check(run)
+        except AnalysisError as e:
+            # part of the analysis could not be carried out; violations already established by the
+            # completed rules are still violations (exit 1), otherwise the run is broken (exit 2)
+            if not any(not o.ok for o in run.obs):
+                raise
+            print('ANALYSIS-INCOMPLETE %s' % e)
+            run.minimums.clear()
+            rc = run.finish()
+            if rc == 0:
+                raise
+            return rc
         rc = run.finish()
         tot = len(run.obs)
         ok = sum(1 for o in run.obs if o.ok)
